@@ -15,6 +15,7 @@ CONSTANTS
   DircmpIgnoreList = FALSE
   DryJobNeedsDstDir = FALSE
   CloneExcludeHitsSpecial = FALSE
+  SpecialByPrefix = FALSE
   CliFilterOnCwd = FALSE
 INIT Init
 NEXT Next
